@@ -202,7 +202,7 @@ pub enum HandleBox {
     CallerReq(usize, Caller<Req>),
     WeakSenderNote(usize, WeakSender<Note>),
     WeakCallerReq(usize, WeakCaller<Req>),
-    SenderUnit(Sender<()>),
+    SenderUnit(usize, Sender<()>),
     SenderB0(Sender<Bcast<0>>),
     SenderB1(Sender<Bcast<1>>),
 }
@@ -875,7 +875,7 @@ async fn exec_op(c: usize, op: Op) {
                     2 => ("caller", HandleBox::CallerReq(a, addr.caller())),
                     3 => ("weak_sender", HandleBox::WeakSenderNote(a, addr.weak_sender())),
                     4 => ("weak_caller", HandleBox::WeakCallerReq(a, addr.weak_caller())),
-                    5 => ("sender", HandleBox::SenderUnit(addr.sender_unit())),
+                    5 => ("sender", HandleBox::SenderUnit(a, addr.sender_unit())),
                     6 => ("sender", HandleBox::SenderB0(addr.sender_b0())),
                     7 => ("sender", HandleBox::SenderB1(addr.sender_b1())),
                     _ => ("to_addr", HandleBox::Addr(a, addr.clone_box())),
